@@ -59,10 +59,28 @@ def _asm(sc):
     return Assembly("t", scaffolds=scs), frs
 
 
+def scaled(d, k):
+    """the same fragment on a k times coarser grid: base b becomes bases (b-1)*k+1 .. b*k (shared bases, abutment and order are kept)"""
+    return dict(d, s=(d["s"] - 1) * k + 1, e=d["e"] * k)
+
+
 def run_asm(sc):
     asm, frs = _asm(sc)
+    t = {"tid": sc["tid"], "kind": "asm", "frs": sc["frs"], "cut": sc["cut"], "pairs": [], "cli": 0, "clipairs": [], "exc": "", "variant": sc.get("variant", "")}
+    if "edit" in sc:
+        # history: the QC has already run once on this very Assembly object; then one row is replaced in place (as OverlapResult.trim_fragment
+        # does with scaffold rows) and the QC runs again - the trace holds the edited fragment list and the SECOND report
+        C.guarded(lambda _: asm.find_overlapping_fragments(), None, 10.0)
+        m, d = sc["edit"]
+        old, new = frs[m], _frag(d)
+        for scf in asm.scaffolds:
+            for i, r in enumerate(scf.rows):
+                if r is old:
+                    scf.rows[i] = new
+        frs[m] = new
+        t["frs"] = [dict(x) for x in sc["frs"]]
+        t["frs"][m] = d
     pos = {id(f): i for i, f in enumerate(frs, 1)}
-    t = {"tid": sc["tid"], "kind": "asm", "frs": sc["frs"], "cut": sc["cut"], "pairs": [], "cli": 0, "clipairs": [], "exc": ""}
     out = C.guarded(lambda _: asm.find_overlapping_fragments(), None, 10.0)
     if out[0] != "ok":
         t["exc"] = out[1] if out[0] == "exc" else "HANG"
@@ -161,6 +179,21 @@ def main(tier, replay=None):
             s = rng.randint(1, 12)
             frs.append({"name": rng.choice("ab"), "s": s, "e": rng.randint(s, min(12, s + 4)), "st": rng.choice([1, -1])})
         asms.append({"frs": frs, "cut": rng.randint(0, n - 1)})
+    # the same assemblies on coarser grids (coordinates in the millions, as in real assemblies): a sample of the exported and random ones
+    base_asms = list(asms)
+    for k in (65536, 1048576, 1000003):
+        for a in rng.sample(base_asms, min(cfg["rnd"] // 4, len(base_asms))):
+            asms.append({"frs": [scaled(d, k) for d in a["frs"]], "cut": a["cut"], "variant": f"grid*{k}"})
+    # histories: report, replace one row of the same Assembly object in place, report again
+    for a in rng.sample(base_asms, min(cfg["rnd"] // 2, len(base_asms))):
+        m = rng.randrange(len(a["frs"]))
+        s0 = rng.randint(1, 12)
+        d = {"name": rng.choice("ab"), "s": s0, "e": rng.randint(s0, min(12, s0 + 4)), "st": rng.choice([1, -1])}
+        asms.append({"frs": a["frs"], "cut": a["cut"], "edit": [m, d], "variant": "edited-in-place"})
+    base_pairs = list(pairs)
+    for k in (1048576, 1000003):
+        for pr in rng.sample(base_pairs, min(cfg["rnd"] // 2, len(base_pairs))):
+            pairs.append({"x": scaled(pr["x"], k), "y": scaled(pr["y"], k)})
     clisel = set(rng.sample(range(len(asms)), min(cfg["cli"], len(asms))))
     for i, a in enumerate(asms):
         a["cli"] = 1 if i in clisel else 0
@@ -179,7 +212,10 @@ def main(tier, replay=None):
         "evaluations": len(traces), "distinct_nontrivial": jr["N"].get("asm_with_overlap", 0) + sum(1 for t in tp if t["x"]["name"] == t["y"]["name"]),
         "rule": "pairs: every ordered pair of fragments (2 contig names x every interval in 1..N x both strands), exported by TLC; assemblies: every "
                 "list of <= MaxFrags fragments x every split into one or two scaffolds, exported by TLC, plus seeded random assemblies of <= 8 "
-                "fragments; a sample also through the real asm-format --qc-overlaps CLI; non-trivial = same-named pair / assembly with an overlap",
+                "fragments; samples of both on coarser grids (every base stretched to 65536, 1048576 or 1000003 bases, so coordinates reach 10^7) and as "
+                "histories (report, replace one row of the same Assembly object in place, report again); a sample also through the real asm-format "
+                "--qc-overlaps CLI; non-trivial = same-named pair / assembly with an overlap",
+        "variants": {v: sum(1 for t in ta if t.get("variant") == v) for v in sorted({t.get("variant", "") for t in ta})},
         "pair_constants": cfg["pairs"], "assembly_constants": cfg["asm"], "model_constants": cfg["mc"],
         "pair_traces": len(tp), "assembly_traces": len(ta), "cli_runs": len(clisel), "assemblies_with_overlap": jr["N"].get("asm_with_overlap", 0),
         "action_coverage": C.coverage_counts(mc["out"]), "unbounded_proofs_of_definition_laws": proofs,
